@@ -128,3 +128,38 @@ Proof.
       cbn [List.length] in IHl |- *. lia. }
     rewrite app_length. specialize (Hl bss). lia.
 Qed.
+
+(* an array of chars as value_to_string writes it: every element is the string literal of its one character *)
+Theorem char_array_value_roundtrip (ftext : bool -> N -> str) b (cs : list N) pre rest :
+  cs <> [] -> Forall (fun c => nul_ok b [c]) cs ->
+  decode_string_array_at b pre
+    (pre ++ value_to_string ftext b (VArray TChar (Some (map (fun c => V TChar (Some (PChar c))) cs))) ++ rest)
+  = Some (map (fun c => [c]) cs, 93 :: rest).
+Proof.
+  intros Hne Hok.
+  set (mk := fun c : N => V TChar (Some (PChar c))).
+  set (one := fun c : N => [c]).
+  assert (G : forall l : list N,
+    (fix go (l : list value) : str :=
+       match l with
+       | [] => []
+       | [x] => value_to_string ftext b x
+       | x :: t => value_to_string ftext b x ++ K "," ++ go t
+       end) (map mk l) = join_lits (map (write_string_quoted b) (map one l))).
+  { induction l as [|x l IHl]; [reflexivity|]. destruct l as [|y l]; [reflexivity|].
+    change (map mk (x :: y :: l)) with (mk x :: map mk (y :: l)).
+    change (map (write_string_quoted b) (map one (x :: y :: l))) with
+      (write_string_quoted b (one x) :: write_string_quoted b (one y) :: map (write_string_quoted b) (map one l)).
+    rewrite join_lits_cons.
+    change (map mk (y :: l)) with (mk y :: map mk l) at 1.
+    cbv beta iota fix. fold (map mk (y :: l)).
+    change (write_string_quoted b (one y) :: map (write_string_quoted b) (map one l))
+      with (map (write_string_quoted b) (map one (y :: l))).
+    rewrite <- IHl. reflexivity. }
+  assert (E : value_to_string ftext b (VArray TChar (Some (map mk cs)))
+              = array_open ++ join_lits (map (write_string_quoted b) (map one cs)) ++ [93]).
+  { destruct cs as [|c0 cs0]; [contradiction|]. rewrite <- (G (c0 :: cs0)). reflexivity. }
+  rewrite E. rewrite <- !app_assoc. cbn [app]. apply string_array_roundtrip.
+  - destruct cs; [contradiction|discriminate].
+  - rewrite Forall_forall in *. intros s Hin. apply in_map_iff in Hin as [c [<- Hc]]. now apply Hok.
+Qed.
